@@ -343,6 +343,14 @@ for _k, _v in {
     "C16": " Also: parse_expr returns only type-checked trees (typed-tree), the invariant the counted typing unwraps rest on.",
 }.items():
     ADDED[_k] = (ADDED.get(_k, "") + _v).strip()
+# round 24 (session 7)
+for _k, _v in {
+    "C02": " Also: a built-in answers with the kind its signature declares or fails (builtin-kind, shared with C14's domain probes).",
+    "C06": " Also: smallest % -1 is answered by the interpreter for every pairing of kinds (failure-equivalence|Modulo|smallest).",
+    "C10": " Also: the `or` step of root_ident answers with the const root (root-ident-or-const).",
+    "C14": " Also: integer powers are computed in the declared width, i128 (width).",
+}.items():
+    ADDED[_k] = (ADDED.get(_k, "") + _v).strip()
 # round 23 (session 7)
 for _k, _v in {
     "C17": " Also: no program number is narrowed or loses its sign on the way into an operation (narrowing, shared with C05).",
